@@ -325,7 +325,7 @@ def extract(text, spec, with_attrs=False):
                     s = toks[p].s
                     if s in OPEN:
                         q = match_close(toks, p)
-                        if depth == 0 and p >= 2 and toks[p - 1].s == ">" and toks[p - 2].s == "=":
+                        if depth == 0 and p >= 1 and toks[p - 1].s == "=>":
                             arms.append((p + 1, q))
                         p = q + 1
                         continue
@@ -539,6 +539,7 @@ RULES = {
     "R11a": Rule("R11a", "assert!(C) -> __assert(C)", "assert ! ( $$c )", "__assert ( $$c )"),
     "R11b": Rule("R11b", "panic!(..) -> __panic()", "panic ! ( $$m )", "__panic ( )"),
     "R11c": Rule("R11c", "assert_eq!(A, B, ..) -> __assert(A == B)", "assert_eq ! ( $$a , $$b )", "__assert ( $$a == $$b )"),
+    "R11e": Rule("R11e", "assert_eq!(A, B, MSG..) -> __assert(A == B)", "assert_eq ! ( $$a , $$b , $$m )", "__assert ( $$a == $$b )"),
     "R11d": Rule("R11d", "unreachable!() -> __unreachable()", "unreachable ! ( $$m )", "__unreachable ( )"),
     # std idioms over closures that this vstd cannot specify (default methods of Iterator): replaced by
     # helper functions whose contracts state the std semantics of the whole expression (prelude/std_specs.rs)
@@ -584,6 +585,12 @@ RULES = {
     "R10z": Rule("R10z", "for (a, &b) in A.iter_mut().zip(B.iter()) { BODY } -> index loop over min(len A, len B)",
                  "for ( $a , & $b ) in $$x . iter_mut ( ) . zip ( $$y . iter ( ) ) { $$body }",
                  "{ let mut i__ = 0 ; let n__ = Ord :: min ( $$x . len ( ) , $$y . len ( ) ) ; while i__ < n__ { let $a = & mut $$x . as_mut_slice ( ) [ i__ ] ; let $b = $$y [ i__ ] ; i__ += 1 ; $$body } }"),
+    "R10y": Rule("R10y", "for (a, &b) in A.iter_mut().zip(B) { BODY } (B: &[T]) -> index loop over min(len A, len B)",
+                 "for ( $a , & $b ) in $$x . iter_mut ( ) . zip ( $y ) { $$body }",
+                 "{ let mut i__ = 0 ; let n__ = Ord :: min ( $$x . len ( ) , $y . len ( ) ) ; while i__ < n__ { let $a = & mut $$x [ i__ ] ; let $b = $y [ i__ ] ; i__ += 1 ; $$body } }"),
+    "R10w": Rule("R10w", "for a in V.iter_mut() { BODY } (V: Vec<T>) -> index loop",
+                 "for $a in $$v . iter_mut ( ) { $$body }",
+                 "{ let mut i__ = 0 ; while i__ < $$v . len ( ) { { let $a = & mut $$v . as_mut_slice ( ) [ i__ ] ; i__ += 1 ; $$body } } }"),
     "R12e": Rule("R12e", "V.extend(E.iter().cloned()) -> V.extend_from_slice(E)  (std: equivalent for Clone elements)",
                  "$$v . extend ( $e . iter ( ) . cloned ( ) )", "$$v . extend_from_slice ( $e )",
                  guard=lambda e: e["$$v"] and all(t not in (";", "=", "{", "}", ",") for t in e["$$v"])),
